@@ -229,7 +229,7 @@ func (x *exec) httpHost(class string) string {
 	case "empty":
 		return ""
 	default: // badchar
-		return []string{"ex%zz.com", "ex[am]ple.com", "exa\x7fmple.com", "a:b:c"}[x.rnd.Intn(4)]
+		return []string{"ex%zz.com", "ex[am]ple.com", "exa\x7fmple.com", "a:b:c", "[", "[]", "[::1", "::1", "]", "[::1]x", "%", "a b"}[x.rnd.Intn(12)]
 	}
 }
 
@@ -259,6 +259,10 @@ func (x *exec) httpRequest() ([]byte, []int) {
 		method = "connect"
 	}
 	host := x.httpHost(m.S("host"))
+	if m.S("host") == "badchar" && m.S("port") == "none" {
+		// without a port some of the odd strings are names as far as conn.AddrFromHostPort is concerned
+		host = []string{"ex%zz.com", "ex[am]ple.com", "exa\x7fmple.com", "a:b:c"}[x.rnd.Intn(4)]
+	}
 	hp := host + httpPort(m.S("port"))
 	var line string
 	origin := false
